@@ -72,6 +72,7 @@ func runC05(p *load.Program, r *oblig.Report) {
 	c05TimestampDelta(p, r)
 	c05WrapperOffsets(p, r)
 	c05StandaloneReadFrom(p, r)
+	c05VersionPerBatch(p, r)
 }
 
 // c05StandaloneReadFrom: RecordSet.ReadFrom is also the public io.ReaderFrom of a record set. Inside a message the
@@ -1487,4 +1488,68 @@ func c05PageRefs(p *load.Program, r *oblig.Report) {
 		}
 	})
 	r.Check(okZero, rule, "protocol.(*refCount).unref calls onZero iff the counter reached zero", p.Pos(rcUnref.Pos()), "atomic.AddUintptr(rc, ^0) == 0", "not recognised")
+}
+
+// c05VersionPerBatch: a record set may mix formats (format-1 messages followed by v2 batches after an upgrade): the
+// decoder used for a batch is chosen from that batch's own magic byte, so the value switched on is computed inside the
+// iteration — it is not carried over from an earlier iteration of the loop.
+func c05VersionPerBatch(p *load.Program, r *oblig.Report) {
+	const rule = "C05.R1 reader ≡ writer field sequence"
+	fn := p.Func("protocol", "(*RecordSet).ReadFrom")
+	if fn == nil {
+		r.Lost(rule, "protocol.(*RecordSet).ReadFrom")
+		return
+	}
+	// the calls that decode one batch
+	var decodes []*ssa.Call
+	an.EachInstr(fn, func(ins ssa.Instruction) {
+		if c, ok := ins.(*ssa.Call); ok && c.Call.StaticCallee() != nil && strings.HasPrefix(an.RefFuncName(c.Call.StaticCallee()), "readFromVersion") {
+			decodes = append(decodes, c)
+		}
+	})
+	if len(decodes) < 2 {
+		r.Lost(rule, "readFromVersion1/2 calls in protocol.(*RecordSet).ReadFrom")
+		return
+	}
+	carried := ""
+	for _, dc := range decodes {
+		for d, child := dc.Block().Idom(), dc.Block(); d != nil; d, child = d.Idom(), d {
+			_, ci := an.IfCond(d)
+			if ci == nil || ci.Edge(token.EQL) < 0 {
+				continue
+			}
+			if _, isK := an.ConstInt(ci.Y); !isK {
+				continue
+			}
+			_ = child
+			// the compared value: is any φ it is made of fed by itself around the loop?
+			seen := map[ssa.Value]bool{}
+			var walk func(v ssa.Value)
+			walk = func(v ssa.Value) {
+				if seen[v] {
+					return
+				}
+				seen[v] = true
+				switch x := v.(type) {
+				case *ssa.Phi:
+					for i, e := range x.Edges {
+						// an edge arriving from a block that the φ's own block reaches is a back edge
+						// (a back edge: the φ's block dominates the predecessor the value arrives from)
+						if x.Block().Dominates(x.Block().Preds[i]) {
+							if _, isConst := e.(*ssa.Const); !isConst {
+								carried = "the version compared at " + p.Pos(d.Instrs[len(d.Instrs)-1].Pos()) + " is carried over from the previous iteration (" + clean(an.Shape(x)) + ")"
+							}
+						}
+						walk(e)
+					}
+				case *ssa.Convert:
+					walk(x.X)
+				case *ssa.UnOp:
+					walk(x.X)
+				}
+			}
+			walk(ci.X)
+		}
+	}
+	r.Check(carried == "", rule, "protocol.(*RecordSet).ReadFrom chooses the decoder of each batch from that batch's magic byte", p.Pos(fn.Pos()), "var version byte declared and assigned inside the loop body", carried)
 }
